@@ -13,16 +13,22 @@ UNIT['need_fields'] = {}
 UNIT['calls'] = dict(_c.UNIT['calls'], **{
     'm:TaskInterface::delegate': 'cb_ti_delegate', 'm:@struct TaskInterface::delegate': 'cb_ti_delegate',
     'fp:start': 'cb_start', 'fp:provide_value': 'cb_provide_value', 'fp:inputs_available': 'cb_inputs_available', 'fp:create_task': 'cb_create_task',
-    'fp:is_result_valid': 'cb_is_result_valid', 'fp:update_status': 'cb_update_status',
+    'fp:is_result_valid': 'cb_is_result_valid', 'fp:update_status': 'cb_update_status', 'fp:cycle_detected': 'cb_cycle_detected',
+    'm:@struct datavec::reserve': 'datavec_reserve', 'm:@struct datavec::push_back': ('datavec_push', 'v'), 'm:@struct datavec::data': 'datavec_data', 'm:@struct datavec::size': 'datavec_size',
+    'range:@struct rulevec': ('rulevec_size', 'rulevec_at'), 'm:@struct rulevec::size': 'rulevec_size', 'm:@keyt::size': 'keyt_size_v', 'm:@keyt::data': 'keyt_data_v',
 })
-UNIT['call_patterns'] = list(_c.UNIT.get('call_patterns', [])) + [(r'c:llb_task_interface_t(_)?\(const llb_task_interface_t_ &\)', '$0'), (r'c:llb_data_t(_)?\(const llb_data_t_ &\)', '$0')]
+UNIT['type_patterns'] = list(_c.UNIT.get('type_patterns', [])) + [(r'(std::)?vector<llb_data_t.*>', 'struct datavec'), (r'(std::)?vector<(core::)?Rule \*.*>', 'struct rulevec')]
+UNIT['predefined_structs'] = list(_c.UNIT.get('predefined_structs', [])) + ['datavec', 'rulevec']
+UNIT['call_patterns'] = [(r'c:(basic_string<char>|string|std::string|KeyType)\(const (std::)?(basic_string<char>|string|KeyType).*&\)', 'keyt_copy_local'), (r'c:(std::)?vector<llb_data_t.*>/0', 'datavec_new'), (r'c:(std::)?vector<llb_data_t.*>\(\)', 'datavec_new')] + list(_c.UNIT.get('call_patterns', [])) + [(r'c:llb_task_interface_t(_)?\(const llb_task_interface_t_ &\)', '$0'), (r'c:llb_data_t(_)?\(const llb_data_t_ &\)', '$0')]
 UNIT['prelude'] = _c.UNIT['prelude'] + '#include "models/capi_cb.h"\n'
 UNIT['after_structs'] = '''
+#include "models/capi_cycle.h"
 static inline void cb_start(void *ctx, void *ectx, struct llb_task_interface_t ti) { g_cb_calls++; g_cb_ctx = ctx; g_cb_engine_ctx = ectx; g_cb_ti_impl = ti.impl; g_cb_ti_ctx = ti.ctx; }
 static inline void cb_inputs_available(void *ctx, void *ectx, struct llb_task_interface_t ti) { g_cb_calls++; g_cb_ctx = ctx; g_cb_engine_ctx = ectx; g_cb_ti_impl = ti.impl; g_cb_ti_ctx = ti.ctx; }
 static inline void cb_provide_value(void *ctx, void *ectx, struct llb_task_interface_t ti, uintptr_t id, const struct llb_data_t *v) { g_cb_calls++; g_cb_ctx = ctx; g_cb_engine_ctx = ectx; g_cb_ti_impl = ti.impl; g_cb_ti_ctx = ti.ctx; g_cb_id = id; g_cb_len = v->length; g_cb_data = v->data; }
 static inline void *cb_create_task(void *ctx, void *ectx) { g_cb_calls++; g_cb_ctx = ctx; g_cb_engine_ctx = ectx; return g_cb_task; }
 static inline _Bool cb_is_result_valid(void *ctx, void *ectx, const void *rule, const struct llb_data_t *v) { g_cb_calls++; g_cb_ctx = ctx; g_cb_engine_ctx = ectx; g_cb_rule = rule; g_cb_len = v->length; g_cb_data = v->data; return g_cb_answer; }
+static inline void cb_cycle_detected(void *ctx, struct llb_data_t *keys, uint64_t n) { g_cb_calls++; g_cb_ctx = ctx; g_cyc_n = n; g_cyc_keys = keys; }
 static inline void cb_update_status(void *ctx, void *ectx, int status) { g_cb_calls++; g_cb_ctx = ctx; g_cb_engine_ctx = ectx; g_cb_status = status; }
 '''
 SELF = ['__CPROVER_is_fresh(self, sizeof(*self))', '__CPROVER_is_fresh(g_delegate, sizeof(*g_delegate))', 'g_cb_calls == 0']
@@ -42,4 +48,15 @@ UNIT['functions'] = {
                                                       'g_cb_engine_ctx == self->engineContext && g_cb_rule == (const void *)&self->rule && g_cb_len == value.len && g_cb_data == (const void *)value.ptr)')]},
     'CAPIRule::updateStatus': {'requires': ['__CPROVER_is_fresh(self, sizeof(*self))', 'g_cb_calls == 0'], 'assigns': A,
                                'ensures': [('P:C20', 'self->rule.update_status == 0 ? g_cb_calls == 0 : (g_cb_calls == 1 && g_cb_ctx == self->rule.context && g_cb_engine_ctx == self->engineContext && g_cb_status == (int)status)')]},
+    # the keys of the cycle reach the client as (length, pointer) pairs that point INTO the rules' own keys (alive as long as the rules), in order, NUL-safe
+    'CAPIBuildEngineDelegate::cycleDetected': {
+        'requires': ['__CPROVER_is_fresh(self, sizeof(*self))', '__CPROVER_is_fresh(items, sizeof(*items))', '__CPROVER_is_fresh(items->ptr, NR * sizeof(struct Rule *)) && items->len <= NR',
+                     ' && '.join('__CPROVER_is_fresh(items->ptr[%d], sizeof(struct Rule))' % k for k in range(3)), 'g_cb_calls == 0 && g_key_copies == 0', 'g_k < items->len'],
+        'assigns': ['g_cb_calls', 'g_cb_ctx', 'g_cyc_n', 'g_cyc_keys', 'g_key_copies', 'g_datavec_len', '__CPROVER_object_whole(g_datavec_buf)'],
+        'ensures': [('P:C20', 'g_cb_calls == 1 && g_cb_ctx == self->cAPIDelegate.context && g_cyc_n == items->len && g_cyc_keys == g_datavec_buf'),
+                    ('P:C20', 'g_datavec_buf[g_k].length == items->ptr[g_k]->key.len && g_datavec_buf[g_k].data == (const uint8_t *)items->ptr[g_k]->key.ptr')],
+        'loops': {0: {'assigns': ['$i', 'g_datavec_len', '__CPROVER_object_whole(g_datavec_buf)', 'g_key_copies'],
+                      'invariant': ['$i <= $range->len && g_datavec_len == $i && ((g_k < $i) ==> (g_datavec_buf[g_k].length == items->ptr[g_k]->key.len && g_datavec_buf[g_k].data == (const uint8_t *)items->ptr[g_k]->key.ptr))'],
+                      'decreases': '$range->len - $i'}},
+    },
 }
